@@ -124,6 +124,71 @@ func isByteVector(t types.Type) bool {
 	return ok && b.Kind() == types.Uint8
 }
 
+// ruleAttrSplit: the GFF writer joins attributes with ';' and the property
+// admits any ';'-free value; the reader's attribute list must therefore come
+// from bytes.Split on ";" — or from a splitter that looks at no byte other
+// than the separator (a quote-aware splitter reads values containing an odd
+// number of '"' differently from how they were written).
+func ruleAttrSplit(c *Ctx, rule string) {
+	fn := c.fn("io/featio/gff", "mustAtoa")
+	c.Funcs[funcName(fn)] = true
+	key := funcName(fn) + "/attribute-split"
+	// the ranged vector of attributes: a [][]byte produced in this function
+	var vec ssa.Value
+	for _, b := range fn.Blocks {
+		for _, ins := range b.Instrs {
+			if call, ok := ins.(*ssa.Call); ok && isByteVector(call.Type()) && vec == nil {
+				vec = call
+			}
+		}
+	}
+	if vec == nil {
+		c.und(rule, key, fn.Pos(), "no attribute vector produced by a call")
+		return
+	}
+	call := vec.(*ssa.Call)
+	sf := call.Call.StaticCallee()
+	if sf != nil && sf.Pkg != nil && sf.Pkg.Pkg.Path() == "bytes" {
+		if (sf.Name() == "Split" || sf.Name() == "SplitN") && string(byteSliceLiteral(call.Call.Args[1])) == ";" {
+			c.ok(rule, key, call.Pos(), "attributes are split by bytes."+sf.Name()+" on \";\", the byte the writer joins them with")
+		} else {
+			c.bad(rule, key, call.Pos(), "attributes are produced by bytes."+sf.Name()+", not a split on exactly \";\"")
+		}
+		return
+	}
+	if sf == nil || !inModule(sf) {
+		c.und(rule, key, call.Pos(), "the attribute splitter is not a known function")
+		return
+	}
+	// a hand-written splitter: which byte constants does it compare elements with?
+	consts := map[int64]bool{}
+	for _, b := range sf.Blocks {
+		for _, ins := range b.Instrs {
+			if bo, ok := ins.(*ssa.BinOp); ok && (bo.Op == token.EQL || bo.Op == token.NEQ) {
+				if k, ok := constIntVal(bo.Y); ok {
+					if bt, ok := bo.X.Type().Underlying().(*types.Basic); ok && bt.Kind() == types.Uint8 {
+						consts[k] = true
+					}
+				}
+			}
+		}
+	}
+	var extra []string
+	for k := range consts {
+		if k != ';' {
+			extra = append(extra, fmt.Sprintf("%q", rune(k)))
+		}
+	}
+	sort.Strings(extra)
+	if len(extra) > 0 {
+		c.bad(rule, key, call.Pos(), fmt.Sprintf("the attribute splitter %s also reacts to %v, not only to the ';' the writer joins attributes with: a value the writer emitted verbatim (any ';'-free text, e.g. one with an odd number of double quotes) changes where the reader splits, and the following attributes are swallowed into it", funcName(sf), extra))
+	} else if consts[';'] {
+		c.ok(rule, key, call.Pos(), "the attribute splitter looks at no byte other than ';'")
+	} else {
+		c.und(rule, key, call.Pos(), "the attribute splitter does not compare with ';'")
+	}
+}
+
 func ruleSplitSep(c *Ctx, rule string) {
 	type target struct {
 		short string
@@ -2154,7 +2219,7 @@ func ruleWindowPos(c *Ctx, rule string) {
 	iP, sP, ok1 := initAndStep(P)
 	iB, sB, ok2 := initAndStep(B)
 	if !ok1 || !ok2 || sP != sB {
-		c.und(rule, key, call.Pos(), "the position and read counters do not advance in lock step")
+		c.bad(rule, key, call.Pos(), "the reported position and the subscript of the letter being read do not advance by the same amount on every path through the scanning loop (one of them is also moved by an inner loop or by a different step): after such a path position + k - 1 no longer equals the subscript of the last letter read, so every later occurrence is reported shifted and the last windows are never visited")
 		return
 	}
 	env := &linEnv{noInline: true}
